@@ -74,6 +74,19 @@ def _parse_errors(stderr, path):
 
 
 def run_unit(unit_path, repo_root="/repo", rlimit=None, extra_args=(), tag="", source_map=None):
+    """Run once; if the only failures are resource-limit hits, retry once with a 4x rlimit and a
+    different solver seed (a brittle proof script is not a violation: DESIGN.md 2.5)."""
+    res = _run_unit_once(unit_path, repo_root, rlimit, extra_args, tag, source_map)
+    if res.status == "undecided" and res.reason == "rlimit":
+        base = rlimit or res.unit.rlimit or 10
+        res2 = _run_unit_once(unit_path, repo_root, base * 4, tuple(extra_args) + ("--smt-option", "smt.random_seed=7"), tag, source_map)
+        res2.wall_s += res.wall_s
+        res2.retried = True
+        return res2
+    return res
+
+
+def _run_unit_once(unit_path, repo_root="/repo", rlimit=None, extra_args=(), tag="", source_map=None):
     t0 = time.time()
     unit = extract.Unit(unit_path)
     res = UnitResult(unit)
